@@ -254,6 +254,17 @@ def run(ck):
             args = d.preene2betafree(1.0, **th)
             d.clearcache()
             R = [np.array(x) for x in d.Lij(*args)]
+            # the same input evaluated again after another vacancy data set was evaluated (Green-function cache hit) must
+            # give the same answer: everything Lij uses for input A must come from A's cache entry
+            th_b = vm.random_thermo(d, rng, interact=True, site_energies=True)
+            d.Lij(*d.preene2betafree(0.8, **th_b))
+            R3 = [np.array(x) for x in d.Lij(*args)]
+            e3 = max(np.abs(a - b).max() for a, b in zip(R, R3)) / max(np.abs(R[0]).max(), 1e-300)
+            if e3 > 1e-10:
+                ck.violation("Lij(A) after Lij(B) differs from the first Lij(A) by %.3g relative (stale per-input state on a cache hit)" % e3,
+                             {"crystal": repr(crys), "chem": chem, "cutoff": cut, "Nthermo": Nth,
+                              "thermo_A": {k: np.asarray(v).tolist() for k, v in th.items()}, "thermo_B": {k: np.asarray(v).tolist() for k, v in th_b.items()},
+                              "first": [x.tolist() for x in R], "third": [x.tolist() for x in R3]}, key="c01-cache-hit")
             dd = crys.dim
             M1, M2 = (M, M + 2) if dd == 3 else (M + 2, M + 6)
             if d.N * d.N * M2 ** dd > 6000: M1, M2 = M, M + 2
